@@ -97,7 +97,7 @@ PLAN = {
         kani=True,
         undecided_clauses=[
             "soft-max shift invariance: not decided (under rounding (v+c)-max(v+c) need not equal v-max(v); the subtraction of the maximum "
-            "is what keeps it finite, which IS decided for n <= 3)",
+            "is what keeps it finite, which IS decided for n = 2; the 3-entry harness does not finish within 3000 s and is disabled)",
             "soft-max for vector lengths above 3"],
     ),
     "C09": dict(
@@ -218,7 +218,11 @@ TRUSTED_BASE = [
     "Verus 0.2026.09.13 + vstd + Z3 (soundness of the verifier and of vstd's Vec / vec! model)",
     "Kani 0.68 + CBMC 6.11 + CaDiCaL (soundness; bit-precise IEEE-754 binary32 model)",
     "tools/extract.py, tools/mirror.py (mechanical extraction; self-checked by anchors, loop counts and canaries)",
-    "std iterator adapters visit elements in order (units that are closure bodies do not cover the adapter chain)",
+    "std iterator adapters visit elements in order (units that are closure bodies do not cover the adapter chain; whole-function units replace each adapter "
+    "form by an index loop with that order: rewrites R12, R15, R17, R20-R46, every application logged under extraction_drops)",
+    "rayon's par_chunks / into_par_iter().map().collect() / flat_map().collect() keep input order like their std counterparts (C05's subject; assumed by R25, R32, R34)",
+    "abstract operations in the network-level units (tensor algebra, per-layer forward/backward functions, optimizer step, objective): uninterpreted; their meaning is decided by the units of C01/C02/C03/C06/C07/C14/C15",
+    "`//@assume-region` contracts (listed in extraction_drops as ASSUMED) and `assume_specification`s for std functions vstd does not specify (<[T]>::swap, f32::is_nan, libm)",
 ]
 
 MANIFEST_TEXT = {
@@ -288,7 +292,7 @@ MANIFEST_TEXT = {
              "proves, for any element of any shape, that both rank copies of each forward/backward closure compute one documented formula "
              "(backward = textbook derivative of forward). Soft-max is bounded in vector length.",
         note="libm contracts (F2) assumed; F1 uninterpreted floats in Verus; derivative table is mathematics (F3); iterator chains "
-             "covered for singleton/small shapes only; soft-max bounded n<=3; shift invariance under rounding undecided.",
+             "covered for singleton/small shapes only; soft-max bounded n = 2; shift invariance under rounding undecided.",
     ),
     "C09": dict(
         category="proof",
@@ -445,5 +449,6 @@ MANIFEST_TEXT = {
 }
 
 NOT_APPLICABLE = {
-    "C05": "quantifies over thread schedules of rayon's pool; Kani has no thread support and Verus has no specification of rayon",
+    "C05": "quantifies over thread schedules of rayon's pool; Kani has no thread support and Verus has no specification of rayon. The sequential content of learn / validate / "
+           "predict_batch is decided under C04 / C12 / C13 ASSUMING what C05 asserts (the parallel adapters keep input order); that assumption itself cannot be decided by a contract here",
 }
